@@ -121,7 +121,10 @@ Qed.
 
 (** * Counters *)
 Definition hz (i : cid) (p : pc) : Z :=
-  match p with Holding j | Releasing j => if (i =? j)%N then 1 else 0 | _ => 0 end.
+  match p with
+  | Holding j | Releasing j | Checking j _ | Deferred j _ => if (i =? j)%N then 1 else 0
+  | _ => 0
+  end.
 Definition wz (i : cid) (p : pc) : Z :=
   match p with Waiting j _ => if (i =? j)%N then 1 else 0 | _ => 0 end.
 Definition cz (i : cid) (p : pc) : Z :=
@@ -247,7 +250,8 @@ Qed.
 Definition on_id (i0 : cid) (p : pc) : Prop :=
   match p with
   | Idle | Panicked => True
-  | Waiting j _ | Cancelling j _ | Holding j | Releasing j | Blocked j _ => j = i0
+  | Waiting j _ | Cancelling j _ | Holding j | Releasing j | Checking j _ | Deferred j _
+  | Blocked j _ => j = i0
   end.
 
 Lemma on_id_other i0 p i : on_id i0 p -> i <> i0 -> hz i p = 0 /\ wz i p = 0 /\ cz i p = 0.
@@ -395,11 +399,15 @@ Proof.
 Qed.
 
 (** ** The fast path: a fresh lock object *)
+(* the pcs in which a call finds itself when locks.Lock has just returned nil *)
+Definition acq_pc (i : cid) (p : pc) : Prop :=
+  p = Holding i \/ p = Releasing i \/ exists v, p = Checking i v.
+
 Lemma inv_lock_fast s t th th' i0 k :
   Inv s ->
   nth_error (ths s) t = Some th -> tpc th = Idle ->
   tlookup i0 (tbl s) = None ->
-  (tpc th' = Holding i0 \/ tpc th' = Releasing i0) ->
+  acq_pc i0 (tpc th') ->
   Inv {| ths := upd (ths s) t th';
          tbl := tset i0 (i0, k) (tbl s);
          heap := hset (i0, k) {| ln := 1; ltok := 0 |} (heap s) |}.
@@ -408,7 +416,7 @@ Proof.
   set (s' := {| ths := upd (ths s) t th'; tbl := tset i0 (i0, k) (tbl s);
                 heap := hset (i0, k) {| ln := 1; ltok := 0 |} (heap s) |}).
   assert (On : on_id i0 (tpc th)) by (rewrite Hidle; exact I).
-  assert (On' : on_id i0 (tpc th')) by (destruct Hpc' as [E|E]; rewrite E; reflexivity).
+  assert (On' : on_id i0 (tpc th')) by (destruct Hpc' as [E|[E|[v E]]]; rewrite E; reflexivity).
   split.
   - intro i. destruct (counters_upd s s' t th th' i Hn eq_refl) as (E1 & E2 & E3).
     destruct (N.eq_dec i i0) as [->|Hne].
@@ -417,7 +425,7 @@ Proof.
       specialize (He i0). unfold entry_inv in He. rewrite Hl in He.
       pose proof (holders_nonneg i0 s). pose proof (waiters_nonneg i0 s). pose proof (cancellers_nonneg i0 s).
       rewrite E1, E2, E3, Hidle. cbn [ln ltok].
-      destruct Hpc' as [E|E]; rewrite E; cbn; rewrite N.eqb_refl; lia.
+      destruct Hpc' as [E|[E|[v E]]]; rewrite E; cbn; rewrite N.eqb_refl; lia.
     + destruct (on_id_other _ _ i On Hne) as (A1 & A2 & A3).
       destruct (on_id_other _ _ i On' Hne) as (B1 & B2 & B3).
       eapply entry_frame; [..|apply (He i)]; cbn [tbl heap s']; try lia.
@@ -426,7 +434,7 @@ Proof.
         pose proof (Hi _ _ Ha) as Hf. rewrite Ea in Hf. cbn in Hf. auto.
   - intros m y i a Hm Hy. cbn [ths tbl s'] in *.
     apply nth_upd_cases in Hm. destruct Hm as [[-> ->]|[Hne Hm]].
-    + destruct Hpc' as [E|E]; destruct Hy as [E'|E']; congruence.
+    + destruct Hpc' as [E|[E|[v E]]]; destruct Hy as [E'|E']; congruence.
     + pose proof (Hp _ _ _ _ Hm Hy) as Hold.
       destruct (N.eq_dec i i0) as [->|Hne']; [congruence|].
       rewrite tlookup_tset_neq; auto.
@@ -435,20 +443,33 @@ Proof.
     + rewrite tlookup_tset_eq in Hi1. inversion Hi1; subst a. reflexivity.
     + rewrite tlookup_tset_neq in Hi1 by auto. eapply Hi; eauto.
   - intros m y Hm. cbn [ths s'] in Hm. apply nth_upd_cases in Hm. destruct Hm as [[-> ->]|[_ Hm]].
-    + destruct Hpc' as [E|E]; rewrite E; exact I.
+    + destruct Hpc' as [E|[E|[v E]]]; rewrite E; exact I.
     + eapply Hs; eauto.
 Qed.
 
 (** * Every step preserves the invariant *)
-Lemma acquired_pc th i : tpc (acquired th i) = Holding i \/ tpc (acquired th i) = Releasing i.
-Proof. unfold acquired. destruct (tbad th); cbn; auto. Qed.
+Lemma acquired_pc th i : acq_pc i (tpc (acquired th i)).
+Proof. unfold acquired, acq_pc. destruct (tbad th); cbn; auto. destruct (tchk th); cbn; eauto. Qed.
 
 Lemma acquired_hz th i j : hz j (tpc (acquired th i)) = if (j =? i)%N then 1 else 0.
-Proof. destruct (acquired_pc th i) as [E|E]; rewrite E; reflexivity. Qed.
+Proof. destruct (acquired_pc th i) as [E|[E|[v E]]]; rewrite E; reflexivity. Qed.
 Lemma acquired_wz th i j : wz j (tpc (acquired th i)) = 0.
-Proof. destruct (acquired_pc th i) as [E|E]; rewrite E; reflexivity. Qed.
+Proof. destruct (acquired_pc th i) as [E|[E|[v E]]]; rewrite E; reflexivity. Qed.
 Lemma acquired_cz th i j : cz j (tpc (acquired th i)) = 0.
-Proof. destruct (acquired_pc th i) as [E|E]; rewrite E; reflexivity. Qed.
+Proof. destruct (acquired_pc th i) as [E|[E|[v E]]]; rewrite E; reflexivity. Qed.
+Lemma acquired_on_id th i : on_id i (tpc (acquired th i)).
+Proof. destruct (acquired_pc th i) as [E|[E|[v E]]]; rewrite E; reflexivity. Qed.
+Lemma acquired_ok th i : ok_pc (tpc (acquired th i)).
+Proof. destruct (acquired_pc th i) as [E|[E|[v E]]]; rewrite E; exact I. Qed.
+Lemma acquired_not_waiting th i j a :
+  ~ (tpc (acquired th i) = Waiting j a \/ tpc (acquired th i) = Cancelling j a).
+Proof. destruct (acquired_pc th i) as [E|[E|[v E]]]; rewrite E; intros [H|H]; discriminate. Qed.
+
+(* the pcs of a session that holds contract i *)
+Lemma hz_one i p : hz i p = 1 -> wz i p = 0 /\ cz i p = 0 /\ on_id i p.
+Proof.
+  destruct p; cbn; try lia; destruct (N.eqb_spec i i0); try lia; subst; auto.
+Qed.
 
 (* facts about the entry of a contract some session is attached to *)
 Lemma entry_of_member s t th i :
@@ -473,14 +494,11 @@ Qed.
 
 Lemma inv_unlock_cs s t th i r s' :
   Inv s -> nth_error (ths s) t = Some th ->
-  tpc th = Holding i \/ tpc th = Releasing i ->
+  hz i (tpc th) = 1 ->
   unlock_cs s t th i r = Some s' -> Inv s'.
 Proof.
-  intros HI Hn Hpc Hu.
-  assert (Hh1 : hz i (tpc th) = 1) by (destruct Hpc as [E|E]; rewrite E; cbn; rewrite N.eqb_refl; auto).
-  assert (Hw0 : wz i (tpc th) = 0) by (destruct Hpc as [E|E]; rewrite E; auto).
-  assert (Hc0 : cz i (tpc th) = 0) by (destruct Hpc as [E|E]; rewrite E; auto).
-  assert (On : on_id i (tpc th)) by (destruct Hpc as [E|E]; rewrite E; reflexivity).
+  intros HI Hn Hh1 Hu.
+  destruct (hz_one _ _ Hh1) as (Hw0 & Hc0 & On).
   destruct (entry_of_member s t th i HI Hn) as (a & o & Hl & Hh & R1 & R2 & R3 & R4 & R5 & _); [lia|].
   unfold unlock_cs in Hu. rewrite Hl, Hh in Hu.
   destruct (ln o - 1 =? 0) eqn:En.
@@ -496,31 +514,41 @@ Proof.
     + exfalso. unfold chan_cap in Et. lia.
 Qed.
 
+Lemma inv_lock_call s t th th0 i s' :
+  Inv s -> nth_error (ths s) t = Some th -> tpc th = Idle -> tpc th0 = Idle ->
+  lock_call s t th0 i = Some s' -> Inv s'.
+Proof.
+  intros HI Hn Hpc Hpc0 Hs. pose proof (sane_mutex_free _ (inv_sane HI)) as Hmf.
+  unfold lock_call in Hs. rewrite Hmf in Hs.
+  destruct (tlookup i (tbl s)) as [a|] eqn:Hl.
+  - pose proof (inv_entry HI i) as He. unfold entry_inv in He. rewrite Hl in He.
+    destruct He as (o & Ho & R1 & R2 & R3 & R4). rewrite Ho in Hs.
+    inversion Hs; subst s'; clear Hs.
+    apply (inv_update s t th (with_pc th0 (Waiting i a)) i a o _ false); auto;
+      try (rewrite Hpc); cbn; auto.
+    + intros ? ? [E|E]; inversion E; auto.
+    + rewrite N.eqb_refl. lia.
+  - inversion Hs; subst s'; clear Hs.
+    apply inv_lock_fast with (th := th); auto. apply acquired_pc.
+Qed.
+
 Theorem step_preserves_inv s a s' : Inv s -> step s a = Some s' -> Inv s'.
 Proof.
   intros HI Hs. pose proof (sane_mutex_free _ (inv_sane HI)) as Hmf.
-  destruct a as [t i d b|t|t|t|t|t|t|t|t]; cbn [step] in Hs;
+  destruct a as [t i d b|t i d b v|t|t|t|t|t|t|t|t|t|t]; cbn [step] in Hs;
     destruct (nth_error (ths s) t) as [th|] eqn:Hn; try discriminate;
-    destruct (tpc th) as [|i0 a0|i0 a0|i0|i0|i0 a0|] eqn:Hpc; try discriminate;
+    destruct (tpc th) as [|i0 a0|i0 a0|i0|i0|i0 v0|i0 r0|i0 a0|] eqn:Hpc; try discriminate;
     try rewrite Hmf in Hs; try (injection Hs as <-; exact HI).
   - (* ALock *)
-    set (th0 := {| tpc := Idle; tdone := d; tbad := b; tret := RNone |}) in *.
-    destruct (tlookup i (tbl s)) as [a|] eqn:Hl.
-    + pose proof (inv_entry HI i) as He. unfold entry_inv in He. rewrite Hl in He.
-      destruct He as (o & Ho & R1 & R2 & R3 & R4). rewrite Ho in Hs.
-      inversion Hs; subst s'; clear Hs.
-      apply (inv_update s t th (with_pc th0 (Waiting i a)) i a o _ false); auto;
-        try (rewrite Hpc); cbn; auto.
-      * intros ? ? [E|E]; inversion E; auto.
-      * rewrite N.eqb_refl. lia.
-    + inversion Hs; subst s'; clear Hs.
-      apply inv_lock_fast with (th := th); auto. apply acquired_pc.
+    eapply (inv_lock_call s t th _ i s' HI Hn Hpc); [|exact Hs]; reflexivity.
+  - (* ACheck *)
+    eapply (inv_lock_call s t th _ i s' HI Hn Hpc); [|exact Hs]; reflexivity.
   - (* ALockRefused *)
     inversion Hs; subst s'. eapply inv_same_pc; eauto.
   - (* ACtxDone *)
     inversion Hs; subst s'. eapply inv_same_pc; eauto.
   - (* AUnlock *)
-    eapply inv_unlock_cs; eauto.
+    eapply inv_unlock_cs; eauto. rewrite Hpc; cbn; rewrite N.eqb_refl; auto.
   - (* ARecv *)
     destruct (entry_of_member s t th i0 HI Hn) as (a & o & Hl & Hh & R1 & R2 & R3 & R4 & R5 & R6 & _);
       [rewrite Hpc; cbn; rewrite N.eqb_refl; lia|].
@@ -529,9 +557,9 @@ Proof.
     inversion Hs; subst s'; clear Hs.
     apply (inv_update s t th (acquired th i0) i0 a o _ false); auto.
     + rewrite Hpc; reflexivity.
-    + destruct (acquired_pc th i0) as [E|E]; rewrite E; reflexivity.
-    + destruct (acquired_pc th i0) as [E|E]; rewrite E; exact I.
-    + intros ? ? [E|E]; destruct (acquired_pc th i0) as [E'|E']; congruence.
+    + apply acquired_on_id.
+    + apply acquired_ok.
+    + intros ? ? Hy. exfalso. eapply acquired_not_waiting; eauto.
     + cbn zeta. rewrite acquired_hz, acquired_wz, acquired_cz, Hpc. cbn. rewrite N.eqb_refl. cbn. lia.
   - (* ACancelChosen *)
     destruct (tdone th); try discriminate. inversion Hs; subst s'; clear Hs.
@@ -551,7 +579,15 @@ Proof.
     + intros ? ? [E|E]; discriminate.
     + rewrite N.eqb_refl. destruct (ln o - 1 =? 0) eqn:En; cbn; lia.
   - (* AErrUnlock *)
-    eapply inv_unlock_cs; eauto.
+    eapply inv_unlock_cs; eauto. rewrite Hpc; cbn; rewrite N.eqb_refl; auto.
+  - (* ABody: the session keeps the lock, only its pc moves *)
+    inversion Hs; subst s'; clear Hs.
+    destruct (entry_of_member s t th i0 HI Hn) as (a & o & Hl & Hh & _);
+      [rewrite Hpc; cbn; rewrite N.eqb_refl; lia|].
+    eapply inv_update_thread with (i0 := i0); eauto; try rewrite Hpc; cbn; auto.
+    intros ? ? [E|E]; discriminate.
+  - (* ADeferUnlock *)
+    eapply inv_unlock_cs; eauto. rewrite Hpc; cbn; rewrite N.eqb_refl; auto.
   - (* ASendDone: there is no blocked sender *)
     exfalso. pose proof (inv_sane HI _ _ Hn) as Hok. rewrite Hpc in Hok. exact Hok.
 Qed.
